@@ -197,6 +197,29 @@ def fam_fix(tier, rng):
                 main.append(b.print(lit("$", "["), show, lit("$", "]")))
                 types = td if route == "field" else []
                 out.append({"fam": "fix:%d/%s/%d" % (n, route, len(s)), "prog": prog(main, subs, types=types)})
+    # the source is itself a fixed-length string of another length: the target keeps ITS length
+    for n in (1, 3, 5):
+        for m in (2, 3, 6):
+            for stext in ("", "ab", "abcdefg"):
+                for route in ("direct", "field", "element"):
+                    b = B()
+                    gv = var("G", "$"); gv["bare"] = True
+                    main = [b.dim("G", "$", fix=m), b.let(gv, lit("$", stext))]
+                    types = []
+                    if route == "direct":
+                        fv = var("F", "$"); fv["bare"] = True
+                        main += [b.dim("F", "$", fix=n), b.let(fv, gv)]
+                        show = fv
+                    elif route == "field":
+                        types = [typedef("FT", [("S", "$", "", n), ("K", "I")])]
+                        main += [b.dim("R", "U", ty="FT"), b.let(fld(var("R", "U"), "S", "$", n), gv)]
+                        show = fld(var("R", "U"), "S", "$", n)
+                    else:
+                        e = idx("AR", "$", [lit("I", 1)]); e["bare"] = True
+                        main += [b.dim("AR", "$", [dimspec(0, 1)], fix=n), b.let(e, gv)]
+                        show = e
+                    main.append(b.print(lit("$", "["), show, lit("$", "]"), lit("$", "["), gv, lit("$", "]")))
+                    out.append({"fam": "fix-from-fixed:%d<-%d/%s/%d" % (n, m, route, len(stext)), "prog": prog(main, [], types=types)})
     return out
 
 
